@@ -19,6 +19,12 @@ def _scan_one(args):
 def run_scans(jobs, procs=None):
     """jobs: list of (driver module name, state, groups, tid)"""
     procs = procs or min(16, os.cpu_count() or 4)
+    # import the drivers (and through them the solver packages) before forking
+    import importlib
+    for drv in sorted({j[0] for j in jobs}):
+        m = importlib.import_module("harness.drivers." + drv)
+        if hasattr(m, "preload"):
+            m.preload()
     if len(jobs) <= 2:
         return [_scan_one(j) for j in jobs]
     ctx = mp.get_context("fork")
@@ -34,15 +40,19 @@ def cfg_key(state):
 
 
 def scan_check(prop, prefixes, groups, camp_driver, tier, level="model_checking",
-               rule=None, assumptions=None, module="Campaign"):
-    """camp_driver: dict campaign/family name -> driver module name."""
+               rule=None, assumptions=None, module="Campaign", require_patterns=None):
+    """camp_driver: dict campaign/family name -> driver module name (or (driver, groups))."""
     t0 = time.time()
     verdict = core.Verdict(prop)
     states, cres = core.enumerate_campaign(sorted(camp_driver), tier, prop, module=module)
-    jobs = [(camp_driver[s["fam"]], s, groups, i + 1) for i, s in enumerate(states)]
+    def drv(f):
+        d = camp_driver[f]
+        return d if isinstance(d, tuple) else (d, groups)
+    jobs = [(drv(s["fam"])[0], s, set(drv(s["fam"])[1]), i + 1) for i, s in enumerate(states)]
     results = run_scans(jobs)
     events, by_tid, errors = [], {}, []
     npts = nj = evals = 0
+    patterns = {}
     for tid, ev, st, err in results:
         by_tid[tid] = states[tid - 1]
         if err is not None:
@@ -50,6 +60,8 @@ def scan_check(prop, prefixes, groups, camp_driver, tier, level="model_checking"
             continue
         events += ev
         npts += st["points"]; nj += st["jumps"]; evals += st["evals"]
+        if st.get("pattern"):
+            patterns[(states[tid - 1]["fam"], st["pattern"], st.get("uclass", ""))] = patterns.get((states[tid - 1]["fam"], st["pattern"], st.get("uclass", "")), 0) + 1
     # a solver that raises on an admissible configuration: reported under FIN (C20) only
     for tid, err in errors:
         s = by_tid[tid]
@@ -85,6 +97,12 @@ def scan_check(prop, prefixes, groups, camp_driver, tier, level="model_checking"
         elif e["k"] == "Jump":
             s = by_tid[e["tid"]]
             nontrivial.add((s["fam"], s["geometry"], "jump", json.dumps(s["par"], sort_keys=True)))
+    # coverage obligation: every required wave pattern (x velocity class) was exercised
+    if require_patterns:
+        have = {(k[1], k[2]) for k in patterns}
+        missing = [p_ for p_ in require_patterns if p_ not in have]
+        if missing:
+            raise RuntimeError("coverage obligation not met, patterns never exercised: %r" % (missing,))
     rc = verdict.finish()
     sample = [ev for ev in events[:400] if ev["k"] in ("Cfg", "Pt", "Jump")][:3]
     cov = {"states": cres["distinct"] + tv["states"], "transitions": cres["states"] + tv["generated"],
@@ -99,6 +117,7 @@ def scan_check(prop, prefixes, groups, camp_driver, tier, level="model_checking"
            "trace_events": len(events), "solver_raised": len(errors),
            "failed_clauses_this_property": clause_hits,
            "known_findings_hit": verdict.known, "exhaustive": True,
+           "wave_patterns_covered": {"%s/%s/%s" % k: v for k, v in sorted(patterns.items())},
            "families": sorted(camp_driver)}
     core.write_evidence(prop, tier, level, cov, time.time() - t0, len(verdict.violations), assumptions)
     return rc
